@@ -66,6 +66,15 @@ package types
 // escrow ids of market objects (scope; the textual id mapping is C05)
 //@ spec bidXID(id: BidID): str
 //@ spec opaque leasePID(id: LeaseID): str = itoa(id.GSeq) + "/" + itoa(id.OSeq) + "/" + id.Provider
+//@ spec asOrder(id: LeaseID): OrderID
+//@ axiom asOrderDef: forall id: LeaseID :: asOrder(id).Owner == id.Owner && asOrder(id).DSeq == id.DSeq && asOrder(id).GSeq == id.GSeq && asOrder(id).OSeq == id.OSeq
+//@   trigger asOrder(id)
+//@ spec asBid(id: LeaseID): BidID
+//@ axiom asBidDef: forall id: LeaseID :: asBid(id).Owner == id.Owner && asBid(id).DSeq == id.DSeq && asBid(id).GSeq == id.GSeq && asBid(id).OSeq == id.OSeq && asBid(id).Provider == id.Provider
+//@   trigger asBid(id)
+//@ spec asGroup(id: LeaseID): dtypes.GroupID
+//@ axiom asGroupDef: forall id: LeaseID :: asGroup(id).Owner == id.Owner && asGroup(id).DSeq == id.DSeq && asGroup(id).GSeq == id.GSeq
+//@   trigger asGroup(id)
 //@ spec leaseDep(id: LeaseID): dtypes.DeploymentID
 //@ axiom leaseDepDef: forall id: LeaseID :: leaseDep(id).Owner == id.Owner && leaseDep(id).DSeq == id.DSeq
 //@   trigger leaseDep(id)
@@ -178,11 +187,21 @@ package types
 //@   ensures [roundtrip] forall id: LeaseID {validBech32(id.Owner)} :: carriesLID(attrs, id) && canonicalAddr(id.Owner) && canonicalAddr(id.Provider) ==> result1 == nil && result0 == id
 //@ func parseEVPriceAttributes
 //@   ensures [roundtrip] forall p: sdk.Coin {validDenom(p.Denom)} :: carriesPrice(attrs, p) && validDenom(p.Denom) && p.Amount >= 0 ==> result1 == nil && result0 == p
+//@ lemma attrsOrd(attrs: []sdk.Attribute)
+//@   requires len(attrs) == 6 && attrs[0].Key == "module" && attrs[1].Key == "action" && attrs[2].Key == "owner" && attrs[3].Key == "dseq" && attrs[4].Key == "gseq" && attrs[5].Key == "oseq"
+//@   ensures attrHas(attrs, "module") && attrVal(attrs, "module") == attrs[0].Value && attrHas(attrs, "action") && attrVal(attrs, "action") == attrs[1].Value && attrHas(attrs, "owner") && attrVal(attrs, "owner") == attrs[2].Value && attrHas(attrs, "dseq") && attrVal(attrs, "dseq") == attrs[3].Value && attrHas(attrs, "gseq") && attrVal(attrs, "gseq") == attrs[4].Value && attrHas(attrs, "oseq") && attrVal(attrs, "oseq") == attrs[5].Value
+//@   trigger attrFirst(attrs, "module", len(attrs))
+//@   trigger attrFirst(attrs, "oseq", len(attrs))
+//@   trigger attrFirst(attrs, "owner", len(attrs))
 //@ func (EventOrderCreated).ToSDKEvent
+//@   uses attrsOrd
 //@   ensures assumed evSig(result) == sigOrder(1, e.ID)
+//@   ensures [shape] len(evAttrs(result)) == 6 && evAttrs(result)[0].Key == "module" && evAttrs(result)[0].Value == "market" && evAttrs(result)[1].Key == "action" && evAttrs(result)[1].Value == "order-created" && evAttrs(result)[2].Key == "owner" && evAttrs(result)[2].Value == e.ID.Owner && evAttrs(result)[3].Key == "dseq" && evAttrs(result)[3].Value == itoa(e.ID.DSeq) && evAttrs(result)[4].Key == "gseq" && evAttrs(result)[4].Value == itoa(e.ID.GSeq) && evAttrs(result)[5].Key == "oseq" && evAttrs(result)[5].Value == itoa(e.ID.OSeq)
 //@   ensures evType(result) == "akash.v1" && carriesMHead(evAttrs(result), "order-created") && carriesOID(evAttrs(result), e.ID)
 //@ func (EventOrderClosed).ToSDKEvent
+//@   uses attrsOrd
 //@   ensures assumed evSig(result) == sigOrder(2, e.ID)
+//@   ensures [shape] len(evAttrs(result)) == 6 && evAttrs(result)[0].Key == "module" && evAttrs(result)[0].Value == "market" && evAttrs(result)[1].Key == "action" && evAttrs(result)[1].Value == "order-closed" && evAttrs(result)[2].Key == "owner" && evAttrs(result)[2].Value == e.ID.Owner && evAttrs(result)[3].Key == "dseq" && evAttrs(result)[3].Value == itoa(e.ID.DSeq) && evAttrs(result)[4].Key == "gseq" && evAttrs(result)[4].Value == itoa(e.ID.GSeq) && evAttrs(result)[5].Key == "oseq" && evAttrs(result)[5].Value == itoa(e.ID.OSeq)
 //@   ensures evType(result) == "akash.v1" && carriesMHead(evAttrs(result), "order-closed") && carriesOID(evAttrs(result), e.ID)
 //@ func (EventBidCreated).ToSDKEvent
 //@   uses nineAttrs
@@ -240,7 +259,7 @@ package types
 //@        && old(carriesLID(ev.Attributes, id) && carriesPrice(ev.Attributes, p)) && canonicalAddr(id.Owner) && canonicalAddr(id.Provider) && validDenom(p.Denom) && p.Amount >= 0 ==>
 //@        result1 == nil && typeis(result0, EventLeaseClosed) && unbox(result0, EventLeaseClosed).ID == id && unbox(result0, EventLeaseClosed).Price == p
 
-//@ property C16 := lemma:nineAttrs, orderIDEVAttributes#*, bidIDEVAttributes#*, leaseIDEVAttributes#*, priceEVAttributes#*, parseEVOrderID#*, parseEVBidID#*, parseEVLeaseID#*, parseEVPriceAttributes#*,
+//@ property C16 := lemma:attrsOrd, lemma:nineAttrs, orderIDEVAttributes#*, bidIDEVAttributes#*, leaseIDEVAttributes#*, priceEVAttributes#*, parseEVOrderID#*, parseEVBidID#*, parseEVLeaseID#*, parseEVPriceAttributes#*,
 //@     ParseEvent#*, (EventOrderCreated).ToSDKEvent#*, (EventOrderClosed).ToSDKEvent#*, (EventBidCreated).ToSDKEvent#*, (EventBidClosed).ToSDKEvent#*,
 //@     (EventLeaseCreated).ToSDKEvent#*, (EventLeaseClosed).ToSDKEvent#*
 
